@@ -362,6 +362,8 @@ def classify(case, witness):
     hg = witness.get("history_geometry")
     if isinstance(hg, dict):            # the failing projection was made on the moved geometry
         case = dict(case, X=list(hg["X"]), Y=list(hg["Y"]))
+        if hg.get("Q"):
+            case["Q"] = [list(q) for q in hg["Q"]]
     if witness.get("what", "").startswith("mapOnTrack(track) output"):
         return None
     try:
@@ -423,10 +425,21 @@ def run_case(case, ctx):
         pos.setX(pos.getX() + 3.0)
         pos.setY(2.0 * pos.getY() - 1.0)
     case2 = dict(case, X=list(track.getX()), Y=list(track.getY()))
-    res2, _ = _run(case2, ctx, track)
+    q2 = None
+    if case["kind"] == "tracks" and _LAST_OUT[0] is not None and len(case["Q"]) % 2 == 0:
+        # derived object as the query: the track returned by the first mapping (it already carries the distance and
+        # segment features of that mapping), or a copy / an extract of it, is mapped on the moved reference
+        o1 = _LAST_OUT[0]
+        m1 = o1.size()
+        if m1 == len(case["Q"]) and m1 >= 1:
+            pick = (m1 + len(case["X"])) % 3
+            q2 = o1 if pick == 0 else (o1.copy() if pick == 1 else o1.extract(0, m1 - 1))
+            case2["Q"] = [[q2.getObs(i).position.getX(), q2.getObs(i).position.getY(), "near"] for i in range(m1)]
+            ctx.count("query_track_is_the_output_of_an_earlier_mapping")
+    res2, _ = _run(case2, ctx, track, q2)
     if res2["v"] == "violated":
         res2["witness"]["history"] = "second projection on the same Track object after its fixes were moved in place"
-        res2["witness"]["history_geometry"] = {"X": case2["X"], "Y": case2["Y"]}
+        res2["witness"]["history_geometry"] = {"X": case2["X"], "Y": case2["Y"], "Q": case2["Q"]}
         res2["sig"], res2["nt"] = res["sig"], res["nt"]
         return res2
     if res2["v"] == "held":
@@ -434,7 +447,10 @@ def run_case(case, ctx):
     return res
 
 
-def _run(case, ctx, given_track):
+_LAST_OUT = [None]      # the Track returned by the last mapOnTrack(track, reference) call of _run
+
+
+def _run(case, ctx, given_track, query_track=None):
     def violated(*a, **k):
         return gen.violated(*a, **k), None
 
@@ -489,8 +505,9 @@ def _run(case, ctx, given_track):
     whole_raised = None
     if kind == "tracks":
         from tracklib.algo.mapping import mapOnTrack
-        qtrack = _make_track([q[:2] for q in Q])
+        qtrack = query_track if query_track is not None else _make_track([q[:2] for q in Q])
         out = M.call(mapOnTrack, qtrack, track)
+        _LAST_OUT[0] = None if M.is_raised(out) else out
         if M.is_raised(out):
             whole_raised = out
             # which query makes it raise?  the same code path, one coordinate at a time
